@@ -505,7 +505,7 @@ fn gen_issue(rng: &mut Rng) -> String {
         dag.push(&tips, anc, suspect);
         ops.push(IOp { author, doc, ts, tips, actions });
     }
-    issuerun::render(&ICase { docs, order: vec![], ops })
+    issuerun::render(&ICase { docs, order: vec![], g: "?".into(), ops })
 }
 
 fn gen_patch(rng: &mut Rng) -> String {
@@ -736,7 +736,7 @@ fn gen_patch(rng: &mut Rng) -> String {
         dag.push(&tips, anc, suspect);
         ops.push(POp { author, doc, ts, tips, actions });
     }
-    patchrun::render(&PCase { docs, heads, order: vec![], ops })
+    patchrun::render(&PCase { docs, heads, order: vec![], g: "?".into(), ops })
 }
 
 fn main() {
